@@ -1,11 +1,14 @@
 /-
-Driver/C16 — runs the executable ZBSDIFF model (builders, control-block codec, both patchers) on
-protocol lines. Stateful: `begin <old> <new>` sets the pair.
+Driver/C16 — runs the executable ZBSDIFF model (builders, control-block codec, both patchers, and
+the whole-patch layer of Model/Zbsdiff: header, zlib framing with zlib given as a table on the
+request line, container split, i64 codec, short-reading old source) on protocol lines.
+Stateful: `begin <old> <new>` sets the pair.
 -/
 import Driver.Common
-import Cascette.Model.Bspatch
+import Cascette.Model.Zbsdiff
 open Cascette Drv
 open Cascette.Model.Bspatch
+open Cascette.Model.Zbsdiff
 
 structure St where
   old : Bytes := []
@@ -30,6 +33,56 @@ def parseSa (s : String) : Option (Array Nat) :=
   (s.splitOn ",").foldl (fun acc t => match acc, t.toNat? with
     | some a, some n => some (a.push n)
     | _, _ => none) (some #[])
+
+/-! whole-patch layer: zlib is the finite table carried by the request line -/
+
+def pErrText : Except PErr Bytes → String
+  | .error e => e.text
+  | .ok o => hexOf o
+
+/-- pairs `<key> <value>`; a value `!` is "inflate fails". -/
+def parsePairs : List String → Option (List (Bytes × Option Bytes))
+  | [] => some []
+  | [_] => none
+  | k :: v :: rest =>
+    match parseHex k, parsePairs rest with
+    | some k, some r => if v == "!" then some ((k, none) :: r) else (parseHex v).map fun v => (k, some v) :: r
+    | _, _ => none
+
+def tableHas (t : List (Bytes × Option Bytes)) (k : Bytes) : Bool := t.any (·.1 == k)
+
+/-- compress table: inflated → compressed (a missing entry is detected before the call). -/
+def zOfCompress (t : List (Bytes × Option Bytes)) : Zlib :=
+  ⟨fun b => ((t.lookup b).bind id).getD [], fun _ => none⟩
+
+/-- decompress table: compressed → inflated | fails. -/
+def zOfDecompress (t : List (Bytes × Option Bytes)) : Zlib :=
+  ⟨fun b => b, fun b => (t.lookup b).bind id⟩
+
+def buildP (t : List (Bytes × Option Bytes)) (r : Except Err Patch) : String :=
+  match r with
+  | .error e => e.text
+  | .ok p =>
+    if tableHas t (encodeCtl p.ctl) && tableHas t p.diff && tableHas t p.extra then
+      pErrText (buildBytes (zOfCompress t) (.ok p))
+    else PErr.zmiss.text
+
+def applyP (t : List (Bytes × Option Bytes)) (buf : Option Nat) (old p : Bytes) : String :=
+  let z := zOfDecompress t
+  match splitPatch p with
+  | .ok (_, cz, dz, ez) =>
+    if tableHas t cz && tableHas t dz && tableHas t ez then pErrText (applyPatchBytes z buf old p) else PErr.zmiss.text
+  | .error _ => pErrText (applyPatchBytes z buf old p)
+
+def parseInt (s : String) : Option Int :=
+  if s.startsWith "-" then (s.drop 1).toNat?.map fun n => -(n : Int) else s.toNat?.map fun n => (n : Int)
+
+def parseNats (s : String) : Option (List Nat) :=
+  (s.splitOn ",").foldr (fun t acc => match t.toNat?, acc with
+    | some n, some a => some (n :: a)
+    | _, _ => none) (some [])
+
+def schedOf (ks : List Nat) : Nat → Nat := fun i => if ks.isEmpty then 1 else ks.getD (i % ks.length) 1
 
 def handle (st : St) : List String → St × String
   | ["begin", o, n] =>
@@ -57,6 +110,64 @@ def handle (st : St) : List String → St × String
     match caller.toNat?, buf.toNat?, parseHex c, parseHex d, parseHex e, out.toNat? with
     | some k, some b, some c, some d, some e, some out => (st, applyText (applyBytesStreamCaller k b st.old c d e out))
     | _, _, _, _, _, _ => (st, "bad-op")
+  | ["apply", "streamd", c, d, e, out] =>
+    match parseHex c, parseHex d, parseHex e, out.toNat? with
+    | some c, some d, some e, some out => (st, applyText (applyBytes (some defaultBuf) st.old c d e out))
+    | _, _, _, _ => (st, "bad-op")
+  | ["apply", "sread", ks, buf, c, d, e, out] =>
+    match parseNats ks, buf.toNat?, parseHex c, parseHex d, parseHex e, out.toNat? with
+    | some ks, some b, some c, some d, some e, some out =>
+      (st, pErrText (applyBytesSrc ⟨st.old, schedOf ks, true⟩ b c d e out))
+    | _, _, _, _, _, _ => (st, "bad-op")
+  | ["apply", "noseek", buf, c, d, e, out] =>
+    match buf.toNat?, parseHex c, parseHex d, parseHex e, out.toNat? with
+    | some b, some c, some d, some e, some out =>
+      (st, pErrText (applyBytesSrc ⟨st.old, fun _ => 1, false⟩ b c d e out))
+    | _, _, _, _, _ => (st, "bad-op")
+  | "buildp" :: "simple" :: rest =>
+    match parsePairs rest with
+    | some t => (st, buildP t (simple st.new))
+    | none => (st, "bad-op")
+  | "buildp" :: "chunked" :: blk :: rest =>
+    match blk.toNat?, parsePairs rest with
+    | some b, some t => (st, buildP t (chunked b st.old st.new))
+    | _, _ => (st, "bad-op")
+  | "buildp" :: "suffix" :: sa :: rest =>
+    match parseSa sa, parsePairs rest with
+    | some sa, some t => (st, buildP t (suffix sa st.old st.new))
+    | _, _ => (st, "bad-op")
+  | "applyp" :: "mem" :: p :: rest =>
+    match parseHex p, parsePairs rest with
+    | some p, some t => (st, applyP t none st.old p)
+    | _, _ => (st, "bad-op")
+  | "applyp" :: "stream" :: buf :: p :: rest =>
+    match buf.toNat?, parseHex p, parsePairs rest with
+    | some b, some p, some t => (st, applyP t (some b) st.old p)
+    | _, _, _ => (st, "bad-op")
+  | ["hdr", p] =>
+    match parseHex p with
+    | some p =>
+      (st, match parseFromPatch p with
+        | .ok h => "ok " ++ intText h.ctl ++ " " ++ intText h.diff ++ " " ++ intText h.out
+        | .error e => e.text)
+    | none => (st, "bad-op")
+  | ["container", p] =>
+    match parseHex p with
+    | some p =>
+      (st, match splitPatch p with
+        | .ok (h, c, d, e) =>
+          "ok " ++ intText h.ctl ++ " " ++ intText h.diff ++ " " ++ intText h.out ++ " c=" ++ hexOf c ++ " d=" ++ hexOf d ++
+            " e=" ++ hexOf e ++ (if containerBuild h c d e == p then " rebuilt=same" else " rebuilt=differs")
+        | .error e => e.text)
+    | none => (st, "bad-op")
+  | ["codec", "enc", v] =>
+    match parseInt v with
+    | some v => if -(2 ^ 63 : Int) ≤ v ∧ v < 2 ^ 63 then (st, hexOf (offtoutI64 v)) else (st, "bad-op")
+    | none => (st, "bad-op")
+  | ["codec", "dec", b] =>
+    match parseHex b with
+    | some b => if b.length = 8 then (st, intText (offtin b)) else (st, "bad-op")
+    | none => (st, "bad-op")
   | _ => (st, "bad-op")
 
 def main : IO Unit := do
